@@ -123,6 +123,28 @@ pub fn engines() -> Vec<Engine> {
         init: Some(crate::argvgen::init),
         eval_counter: None,
         shards: 1,
+    },
+    Engine {
+        id: "C03",
+        level: "exploration",
+        generate: crate::c03::generate,
+        execute: crate::c03::execute,
+        shrink: crate::c03::shrink,
+        runs_quick: 400,
+        runs_thorough: 15_000,
+        cap_thorough_secs: 1200,
+        rule: "one evaluation = one simulated workflow history: main tagged with a random final release, then a seeded GitFlow / trunk-like script (branch with rule-relevant and arbitrary names, commit with skewed clocks, dirty / clean, merge, fast-forward, detach, reset, release = tag HEAD with the public part of flow's own output, next final release) under one fixed flag set (11 standard presets, post mode, hash length 1-10, default or custom branch rules, label / number overrides); after every observation point `zerv flow` is run for semver and pep440 at the simulated instant and judged: clause 1 exact X.Y.Z at a clean final tag, clause 2 X.Y.Z < V < X.Y.(Z+1) otherwise, clause 3 strictly greater with more commits (commit post-mode, same branch / tag / first-parent chain), clause 4 pre-release tag unchanged; the clause to apply comes from the reference model, the order from independent SemVer / PEP 440 comparators; distinct = distinct (base tag shape, branch class, distance (capped at 6), dirty, preset, post mode, hash length, custom rules) observation states",
+        assumptions: &[
+            "clauses are evaluated only when the reference model says the base tag is unique (one nearest tagged commit, one maximal tag)",
+            "clause 3 is evaluated only where the model knows the post mode is `commit` (explicit flag, or default rules on a branch that is not release/*)",
+            "release tags are the shapes the README documents as tags: X.Y.Z-label.N and X.Y.Z-label.N.post.P (never .dev.* or +context strings)",
+            "wall clock within [0, 2^32); numbers below 2^31",
+        ],
+        real_vs_stub: "real: zerv binary (flow runs the version pipeline twice, 22 git invocations), /usr/bin/git behind the pass-through proxy; simulated: workflow actors and their clocks, zerv's wall clock (dev.<SIM_NOW>); oracle: reference model for base tag / distance / dirty, independent SemVer / PEP 440 comparators",
+        required_probes: &[],
+        init: None,
+        eval_counter: None,
+        shards: 1,
     }]
 }
 
@@ -327,6 +349,10 @@ pub fn run(ctx: &Ctx, id: &str, opts: &Opts) -> i32 {
         for v in &r.viol {
             viols.push((i as u64, r.scenario.clone(), v.clone()));
         }
+    }
+    if let Ok(p) = std::env::var("ZSIM_DUMP_VIOL") {
+        let lines: Vec<String> = viols.iter().map(|(i, _, v)| format!("{i}\t{}\t{}\t{}\t{}\t{}", v.clause, v.field, v.expected.replace('\n', " "), v.actual.replace('\n', " "), v.detail.replace('\n', " "))).collect();
+        let _ = std::fs::write(p, lines.join("\n"));
     }
     if let Some(p) = &opts.digests {
         let _ = std::fs::write(p, &digests);
